@@ -28,6 +28,29 @@ CmrLabels(d, i) ==
                         [] OTHER -> <<IF d[k][2] # 0 THEN prev[d[k][2]] ELSE 0, IF d[k][3] # 0 THEN prev[d[k][3]] ELSE 0>>
            same == {j \in 1..(i - 1) : op(j) = op(i) /\ ToString(kids(j)) = ToString(kids(i))}
        IN Append(prev, IF same = {} THEN i ELSE prev[CHOOSE j \in same : TRUE])
+(* the bytes themselves, computed here from first principles (RootBytes.tla / Sha256.tla) for a sample of the runs
+   (IOEnv.CONCRETE = m: every m-th run; 0 = none): each node's commitment root, identity hash and annotated root
+   must be the SHA-256 midstate of its one-level term over its children's roots as the crate reported them; the
+   first-pass identity roots, which the crate does not show, are rebuilt bottom-up.  Jet leaves are atoms. *)
+RB == INSTANCE RootBytes
+HX == INSTANCE Sha256
+Sample == IF "CONCRETE" \in DOMAIN IOEnv THEN atoi(IOEnv.CONCRETE) ELSE 0
+RECURSIVE ImrList(_, _, _, _, _)
+ImrList(e, d, t, w, i) ==
+  IF i = 0 THEN <<>>
+  ELSE CHOOSE r \in {Append(prev, IF d[i][1] = "leaf" THEN HX!HexBits(e.roots[i].cmr) ELSE RB!Bytes(ImrG(d, t, w, i, TRUE), [imr |-> prev])) :
+                      prev \in {ImrList(e, d, t, w, i - 1)}} : TRUE
+ConcreteOk(e) ==
+  (Sample > 0 /\ e.run % Sample = 0) =>
+    \* (bound through singleton sets so that TLC evaluates each of them once, not at every use)
+    \A d \in {e.dag} : \A t \in {TyOf(e.ty)} : \A w \in {[i \in 1..Len(e.wit) |-> e.wit[i]]} :
+    \A refs \in {[cmr |-> [i \in 1..Len(d) |-> HX!HexBits(e.roots[i].cmr)],
+                  amr |-> [i \in 1..Len(d) |-> HX!HexBits(e.roots[i].amr)],
+                  imr |-> ImrList(e, d, t, w, Len(d))]} :
+      \A i \in 1..Len(d) : d[i][1] # "leaf" =>
+         /\ RB!Bytes(CmrG(d, i, TRUE), refs) = refs.cmr[i]
+         /\ RB!Bytes(IhrL(d, t, w, i), refs) = HX!HexBits(e.roots[i].ihr)
+         /\ RB!Bytes(AmrG(d, t, w, i, TRUE), refs) = refs.amr[i]
 Clauses(e) ==
   LET d == e.dag  labs == CmrLabels(d, Len(d)) IN
   <<
@@ -35,7 +58,9 @@ Clauses(e) ==
    \* 2: equal committed structure <=> equal root
    \A i, j \in 1..Len(d) : (labs[i] = labs[j]) = (e.cmr_class[i] = e.cmr_class[j]),
    \* 3-4: witness data and conversions leave the root alone
-   e.same_with_other_witness, e.conversions_equal
+   e.same_with_other_witness, e.conversions_equal,
+   \* 5: the bytes, from first principles
+   ConcreteOk(e)
   >>
 AllTrue(cl) == \A k \in 1..Len(cl) : cl[k]
 Terms(e) ==
